@@ -275,8 +275,9 @@ namespace avel {
         typename std::enable_if<N < mask32x8u::width, int>::type dummy_variable = 0;
 
         #if (defined(AVEL_AVX512VL) && defined(AVEL_AVX512BW)) || defined(AVEL_AVX10_1)
-        auto mask = b << N;
-        return mask32x8u{__mmask32((decay(m) & ~mask) | mask)};
+        auto bit = std::uint64_t(1) << N;
+        auto mask = std::uint64_t(b) << N;
+        return mask32x8u{__mmask32((decay(m) & ~bit) | mask)};
 
         #elif defined(AVEL_AVX2)
         return mask32x8u{_mm256_insert_epi8(decay(m), b ? - 1 : 0, N)};
